@@ -101,7 +101,22 @@ def wire_case(ch, r):
     e = ch.bool()
     if with_headers:
         sid = ch.pick([1, 3, 5])
-        o = s.feed(wire.headers(sid, s.hblock(REQ), priority=(d, w, e)))
+        blk = s.hblock(REQ + ([(b'x-big', b'B' * ch.pick([17000, 40000]))] if ch.chance(48) else []))
+        if ch.chance(96) and len(blk) > 3:
+            # the priority fields travel in the HEADERS frame, the rest of the block in CONTINUATION frames
+            cut = ch.int(1, min(len(blk) - 1, 16000))
+            rest = blk[cut:]
+            data_ = wire.headers(sid, blk[:cut], priority=(d, w, e), end_headers=False)
+            while len(rest) > 16384:
+                data_ += wire.continuation(sid, rest[:16384], end_headers=False)
+                rest = rest[16384:]
+            data_ += wire.continuation(sid, rest, end_headers=True)
+            o = s.feed(data_)
+            r.labels.add('priority-with-continuation')
+        elif len(blk) <= 16000:
+            o = s.feed(wire.headers(sid, blk, priority=(d, w, e)))
+        else:
+            return
     else:
         o = s.feed(wire.priority(sid, d, w, e))
     r.step('wire', 'client' if client else 'server', 'HEADERS+PRIORITY' if with_headers else 'PRIORITY', sid, d, w, e,
@@ -141,9 +156,21 @@ def gen_ops(ch, w, r, ops, summary):
         if w.stop or r.violations:
             break
         usable = sorted(s for s in m.streams if s not in w.tainted)
-        kind = ch.weighted([(5, 'open'), (4, 'data'), (2, 'end'), (2, 'rst'), (2, 'wu'), (9, 'prio'), (2, 'respond')])
+        kind = ch.weighted([(5, 'open'), (4, 'data'), (2, 'end'), (2, 'rst'), (2, 'wu'), (9, 'prio'), (2, 'respond'),
+                            (2, 'push')])
         op = None
-        if kind == 'open':
+        if kind == 'push':
+            # pushes in either role: a PRIORITY frame earlier on (even before the first request) changes
+            # nothing about them
+            if w.client:
+                parents = [s for s in usable if s % 2 == 1 and m.get(s).state in (M.OPEN, M.HC_LOCAL)]
+                if parents:
+                    op = ('recv-push', ch.pick(parents), w.next_peer_id())
+            else:
+                parents = [s for s in usable if s % 2 == 1 and m.get(s).state in (M.OPEN, M.HC_REMOTE)]
+                if parents:
+                    op = ('send-push', ch.pick(parents), w.next_local_id())
+        elif kind == 'open':
             if w.client:
                 op = ('open-local', w.next_local_id(), ch.chance(64))
             else:
@@ -215,6 +242,10 @@ def apply_op(w, op):
         res, o = w.reset(op[1])
     elif kind == 'peer-rst':
         res, o = w.recv_rst(op[1])
+    elif kind == 'recv-push':
+        res, o = w.recv_push(op[1], op[2])
+    elif kind == 'send-push':
+        res, o = w.push(op[1], op[2])
     else:
         if op[1] == 0:
             o = w.s.feed(wire.window_update(0, op[2]))
